@@ -57,10 +57,18 @@ def run(prog: Program, rep: Report, tier: str) -> None:
     n_thunks = 0
     for f in prog.all_functions():
         for c in [x for x in own_nodes(f.node) if isinstance(x, ast.Call) and callee_last(x) == 'solve_thunks']:
-            for a in c.args:
+            for a in list(c.args) + [k.value for k in c.keywords]:
+                g = None
                 if isinstance(a, ast.Lambda):
                     g = next((h for h in f.module.functions.values() if h.node is a), None)
-                    if g is None: continue
+                elif isinstance(a, ast.Name):
+                    # the thunk given a name first: a local `def make_a(): ...` (or `make_a = lambda: ...`) of the calling function
+                    g = next((h for h in f.children if not h.is_lambda and h.name == a.id), None)
+                    if g is None:
+                        lam = next((n.value for n in own_nodes(f.node) if isinstance(n, ast.Assign) and len(n.targets) == 1 and isinstance(n.targets[0], ast.Name)
+                                    and n.targets[0].id == a.id and isinstance(n.value, ast.Lambda)), None)
+                        g = next((h for h in f.module.functions.values() if lam is not None and h.node is lam), None)
+                if g is not None:
                     n_thunks += 1
                     r = eng.summaries[g].ret
                     roots = r.id | r.reach()
